@@ -52,15 +52,22 @@ type world struct {
 	log   []event
 	rules []rule
 	occ   map[string]int
+	objs  []client.Object
 	inner client.WithWatch
 	c     client.WithWatch
 }
 
 func newWorld(rules ...rule) *world {
-	w := &world{rules: rules, occ: map[string]int{}}
-	w.inner = kit.NewClient(interceptor.Funcs{})
+	return &world{rules: rules, occ: map[string]int{}}
+}
+
+// add queues an object (with its status) for the initial content of the API.
+func (w *world) add(o client.Object) { w.objs = append(w.objs, o) }
+
+// build creates the in-memory API with the queued objects and the intercepting client on top.
+func (w *world) build() {
+	w.inner = kit.NewClient(interceptor.Funcs{}, w.objs...)
 	w.c = interceptor.NewClient(w.inner, w.funcs())
-	return w
 }
 
 func injected(what, kind, key string) error {
@@ -223,6 +230,9 @@ func condStatus(name string) metav1.ConditionStatus {
 
 // markDeleting gives the stored object a deletion timestamp (it must carry a finalizer).
 func markDeleting(ctx context.Context, c client.Client, o client.Object) {
+	if err := c.Get(ctx, client.ObjectKeyFromObject(o), o); err != nil {
+		panic(err)
+	}
 	if err := c.Delete(ctx, o); err != nil {
 		panic(err)
 	}
